@@ -739,17 +739,35 @@ func checkC03TerminalWriter(p *Prog, r *Report, ru *Rule) {
 					if nil == cc {
 						return
 					}
-					uses := false
+					if _, isB := cc.Value.(*ssa.Builtin); isB {
+						return /* len, cap, copy: not output */
+					}
+					uses, fromStart := false, false
 					for _, a := range callArgs(cc) {
-						if resolveFree(stripConv(a, false)) == ssa.Value(buf) {
+						adv := false
+						v := stripConv(a, false)
+						for {
+							sl, isSl := v.(*ssa.Slice)
+							if !isSl {
+								break
+							}
+							if nil != sl.Low {
+								adv = true /* p[n:]: starts after what went before */
+							}
+							v = stripConv(sl.X, false)
+						}
+						if resolveFree(v) == ssa.Value(buf) {
 							uses = true
+							if !adv {
+								fromStart = true
+							}
 						}
 					}
 					if !uses {
 						return
 					}
 					n++
-					if nil == again && canReach(locOf(j), j) {
+					if nil == again && fromStart && canReach(locOf(j), j) {
 						again = j
 					}
 				})
